@@ -143,30 +143,9 @@ func runC15(c *Ctx) {
 		}
 	}
 	checkSep(m, "internal/counter", "IsStackCounter", "test")
-	// IsStackCounter is exactly "the name contains a newline": the result is the containment
-	// call itself, or an index compared so that position 0 counts as found
-	{
-		isc := m.Func("internal/counter", "IsStackCounter")
-		for _, ex := range exitPaths(isc) {
-			v := strip(ex.vals[0])
-			okRes, got := false, describe(v)
-			switch x := v.(type) {
-			case *ssa.Call:
-				n := calleeName(&x.Call)
-				okRes = n == "strings.Contains" || n == "strings.ContainsRune"
-			case *ssa.BinOp:
-				var idx ssa.Value = x.X
-				k, isC := intConst(x.Y)
-				if cl, ok := strip(idx).(*ssa.Call); ok && isC && strings.HasPrefix(calleeName(&cl.Call), "strings.Index") {
-					okRes = (x.Op == token.GEQ && k == 0) || (x.Op == token.GTR && k == -1) || (x.Op == token.NEQ && k == -1)
-				}
-			case *ssa.Const:
-				okRes = false
-			}
-			r.Check("C15.separator-agreement", "IsStackCounter/true exactly when the name contains a newline", m.Pos(ex.ret.Pos()), okRes,
-				"a newline at index 0 (an empty counter prefix) counts: Contains(name, \"\\n\") or Index… >= 0; got "+shortDesc(got))
-		}
-	}
+	c15IsStackCounter(c, m, "C15.separator-agreement")
+	c15DecodeResult(c, m, "C15.decode-total")
+	c15PublicForwarding(c, m)
 	checkSep(m, "internal/counter", "DecodeStack", "test", "split", "join")
 	checkSep(m, "internal/counter", "EncodeStack", "join")
 	checkSep(m, "internal/upload", "uploader.createReport", "split")
@@ -421,4 +400,79 @@ func c15DittoState(c *Ctx, m *Module) {
 		}
 	}
 	r.Check("C15.separator-agreement", "EncodeStack/has the ditto state", m.Pos(enc.Pos()), n == 1, fmt.Sprintf("%d remembered-path variables compared with the frame's path", n))
+}
+
+// c15IsStackCounter: IsStackCounter is exactly "the name contains a newline" (shared with C11:
+// uploader, server and viewer must classify a key the same way).
+func c15IsStackCounter(c *Ctx, m *Module, rule string) {
+	r := c.R
+	// IsStackCounter is exactly "the name contains a newline": the result is the containment
+	// call itself, or an index compared so that position 0 counts as found
+	{
+		isc := m.Func("internal/counter", "IsStackCounter")
+		for _, ex := range exitPaths(isc) {
+			v := strip(ex.vals[0])
+			okRes, got := false, describe(v)
+			switch x := v.(type) {
+			case *ssa.Call:
+				n := calleeName(&x.Call)
+				okRes = n == "strings.Contains" || n == "strings.ContainsRune"
+			case *ssa.BinOp:
+				var idx ssa.Value = x.X
+				k, isC := intConst(x.Y)
+				if cl, ok := strip(idx).(*ssa.Call); ok && isC && strings.HasPrefix(calleeName(&cl.Call), "strings.Index") {
+					okRes = (x.Op == token.GEQ && k == 0) || (x.Op == token.GTR && k == -1) || (x.Op == token.NEQ && k == -1)
+				}
+			case *ssa.Const:
+				okRes = false
+			}
+			r.Check(rule, "IsStackCounter/true exactly when the name contains a newline", m.Pos(ex.ret.Pos()), okRes,
+				"a newline at index 0 (an empty counter prefix) counts: Contains(name, \"\\n\") or Index… >= 0; got "+shortDesc(got))
+		}
+	}
+}
+
+// c15DecodeResult: what DecodeStack returns is the name itself (no newline in it) or the lines
+// joined again with the separator — nothing trimmed, appended or replaced afterwards. A decoder
+// that drops a trailing newline turns the stored name "runs\n" (a stack counter with no
+// frames) into the plain counter name "runs". Shared with C01 (near-misses of approved names)
+// and C06 (the recorded name is the once-decoded record name).
+func c15DecodeResult(c *Ctx, m *Module, rule string) {
+	r := c.R
+	dec := m.Func("internal/counter", "DecodeStack")
+	n := 0
+	for _, ex := range exitPaths(dec) {
+		n++
+		v := strip(refine(ex.vals[0], ex.facts))
+		ok := v == ssa.Value(dec.Params[0])
+		if cl, isCall := v.(*ssa.Call); isCall && calleeName(&cl.Call) == "strings.Join" {
+			k, isC := constOf(argsOf(cl)[1])
+			ok = isC && k == "\n"
+		}
+		r.Check(rule, fmt.Sprintf("DecodeStack/result #%d is the name or the re-joined lines", n), m.Pos(ex.ret.Pos()), ok,
+			"the decoded name must be returned as joined (strings.Join(lines, newline)) or unchanged; got "+shortDesc(describe(v)))
+	}
+	r.Check(rule, "DecodeStack/results enumerated", m.Pos(dec.Pos()), n >= 2, fmt.Sprintf("%d", n))
+}
+
+// c15PublicForwarding: the public constructor hands the caller's name and depth to the
+// internal one unchanged (a depth clamped on the way makes stacks that differ only beyond the
+// clamp share a counter, although their names would not have been truncated).
+func c15PublicForwarding(c *Ctx, m *Module) {
+	r := c.R
+	f := m.Func("counter", "NewStack")
+	n := 0
+	for _, cs := range callsIn(f, "internal/counter.NewStack") {
+		n++
+		a := cs.Common().Args
+		ok := len(a) == len(f.Params)
+		for i := range a {
+			if ok && strip(a[i]) != ssa.Value(f.Params[i]) {
+				ok = false
+			}
+		}
+		r.Check("C15.separator-agreement", "counter.NewStack forwards name and depth unchanged", m.Pos(cs.Pos()), ok,
+			"got NewStack("+shortDesc(describe(a[0]))+", "+shortDesc(describe(a[len(a)-1]))+")")
+	}
+	r.Check("C15.separator-agreement", "counter.NewStack calls the internal constructor", m.Pos(f.Pos()), n == 1, fmt.Sprintf("%d calls", n))
 }
